@@ -366,6 +366,64 @@ def scenario_oracle(ops, outs):
                         "(filters %r)" % (mt, (op[5], op[6]) if op[4] else None, out, want, tf))
     return None
 
+def doc_class_match(body, ch):
+    """membership of byte ch in a class body, written from the documentation comment above pm_list()
+    (not from its code): leading ! or ^ negates; <char>-<char> is a range; \\<char> is literal; a '-' that is
+    initial, trailing or follows a completed range is a single character; comparisons are on signed chars"""
+    sc = lambda b: b - 256 if b >= 128 else b
+    i, n, neg = 0, len(body), False
+    if n and body[0] in b"!^":
+        neg, i = True, 1
+    hit = False
+    while i < n:
+        c = body[i]
+        can_start = True
+        if c == 0x5c and i + 1 < n:
+            lit = body[i + 1]; i += 2
+        else:
+            lit = c; i += 1
+            if c == 0x2d:
+                can_start = False        # an unescaped '-' that is not part of a range is just a character
+        if can_start and i < n - 1 and body[i] == 0x2d:
+            j = i + 1
+            end = body[j]
+            if end == 0x5c and j + 1 < n:
+                j += 1; end = body[j]
+            if sc(lit) <= sc(ch) <= sc(end) or lit == ch:
+                hit = True
+            i = j + 1
+            # what follows a completed range starts afresh: a '-' here is literal
+            if i < n and body[i] == 0x2d:
+                if ch == 0x2d:
+                    hit = True
+                i += 1
+        elif lit == ch:
+            hit = True
+    return hit != neg
+
+def class_semantics_cases(r, n):
+    """single-class patterns against single characters, incl. range-dash-char shapes like [a-c-e]"""
+    out = []
+    alpha = b"abcdefxyz09-_"
+    for _ in range(n):
+        k = r.randrange(6)
+        a, b, c = sorted(r.sample(list(b"abcdefghij0123456789"), 3))
+        if k == 0:
+            body = bytes([a, 0x2d, b, 0x2d, c])
+        elif k == 1:
+            body = bytes([r.choice(b"!^"), a, 0x2d, b, 0x2d, c])
+        elif k == 2:
+            body = bytes([a, 0x2d, b]) + bytes([r.choice(alpha)]) + bytes([0x2d, c])
+        elif k == 3:
+            body = bytes([0x2d, a, 0x2d, b, 0x2d])
+        elif k == 4:
+            body = bytes([a, 0x2d, b, c, 0x2d, c + 1, 0x2d, 0x5f])
+        else:
+            body = bytes(r.choice(alpha) for _ in range(r.randrange(1, 7)))
+        for ch in set([a, b, c, 0x2d, a + 1 if a + 1 < 128 else a, c + 1, 0x5f, r.choice(alpha)]):
+            out.append(pm_case(b"[" + body + b"]", bytes([ch])))
+    return out
+
 def oracle(case_line, impl_line):
     if impl_line.startswith(CRASH):
         try:
@@ -391,6 +449,15 @@ def oracle(case_line, impl_line):
             c = vparse(case_line)
             return ("C16:narrow-wide", "__archive_pathmatch(%r, %r) = %s but __archive_pathmatch_w = %s (flags 0..3)" %
                     (c[1], c[2], a, b))
+        c = vparse(case_line)
+        pat, sub = c[1], c[2]
+        if (len(sub) == 1 and len(pat) >= 3 and pat[:1] == b"[" and pat[-1:] == b"]" and b"]" not in pat[1:-1]
+                and b"[" not in pat[1:-1] and not pat.endswith(b"\\]") and sub not in (b"/",) and 0 not in pat):
+            want = 1 if doc_class_match(pat[1:-1], sub[0]) else 0
+            got = int(a.split()[0], 16)
+            if got != want:
+                return ("C16:class-semantics", "__archive_pathmatch(%r, %r, 0) = %d but the documented class semantics give %d" %
+                        (pat, sub, got, want))
         return None
     try:
         ops = vparse(case_line)[1]
@@ -469,7 +536,7 @@ def run(rep):
     ntab, suite = check_suite_table(rep, runner, exe)
     # hand-made tables and random pairs (deduplicated; the ones that fall into an exhaustive family are dropped)
     loose, seen = [], set()
-    for c in (corpus + witness + suite + class_at_end_cases() + highbyte_cases(r, 300 if quick else 5000) +
+    for c in (corpus + witness + suite + class_at_end_cases() + class_semantics_cases(r, 300 if quick else 5000) + highbyte_cases(r, 300 if quick else 5000) +
               [pm_case(*rand_pair(r)) for _ in range(60000 if quick else 1200000)]):
         if c in seen:
             continue
